@@ -410,6 +410,27 @@ func checkStrconv(p *Prog, r *Report, fn *ssa.Function) {
 							continue
 						}
 						eff := int(bits)
+						// an explicit bound before the conversion makes a wider parse exact as well: on no path
+						// through the conversion may the value be the first number the target cannot hold
+						if tb < 64 {
+							limit := int64(1) << uint(tb)
+							if tsigned {
+								limit = int64(1) << uint(tb-1)
+							}
+							bounded, through := true, 0
+							for _, sg := range fp.Segs {
+								if !sg.Has(t) {
+									continue
+								}
+								through++
+								if valueFactsAllow(sg, val, limit, t) {
+									bounded = false
+								}
+							}
+							if through > 0 && bounded {
+								continue
+							}
+						}
 						if signedSrc == tsigned {
 							if tb < eff {
 								okc, why = false, fmt.Sprintf("value of %d bits converted to %s (%d bits): silently truncated", eff, t.Type(), tb)
@@ -574,6 +595,45 @@ func checkSplitUpperBound(p *Prog, r *Report, fn *ssa.Function) {
 		for _, in := range b.Instrs {
 			c, ok := in.(*ssa.Call)
 			if !ok {
+				continue
+			}
+			if calleeFull(&c.Call) == "strings.Cut" && (usedValue(extractOf(c, 1)) || usedValue(extractOf(c, 2))) {
+				// Cut form: everything behind the first separator is one piece; extra separators are refused when
+				// that piece only goes to checks and to parsers that report an error (a number / duration parser
+				// rejects the separator), never ignored
+				k++
+				key := fmt.Sprintf("%s/split#%d", FuncName(fn), k)
+				after := extractOf(c, 1)
+				okb, why := after != nil, "the part behind the separator is never looked at: extra parts are ignored"
+				if after != nil {
+					nUse := 0
+					for _, ref := range *after.Referrers() {
+						switch u := ref.(type) {
+						case *ssa.DebugRef:
+						case *ssa.Call:
+							nUse++
+							sig := u.Call.Signature()
+							cf := calleeFull(&u.Call)
+							checks := cf == "strings.Contains" || cf == "strings.Index" || cf == "strings.IndexByte" || cf == "strings.ContainsRune" || cf == "strings.Count"
+							if bi, isB := u.Call.Value.(*ssa.Builtin); isB && bi.Name() == "len" {
+								checks = true
+							}
+							reportsErr := sig.Results().Len() > 0 && isErrorType(sig.Results().At(sig.Results().Len()-1).Type())
+							if !checks && !reportsErr {
+								okb, why = false, "the part behind the separator goes to "+cf+", which cannot refuse extra separators"
+							}
+						case *ssa.BinOp, *ssa.Phi, *ssa.Index, *ssa.Lookup:
+							nUse++ // comparisons, a look at single characters, concatenation that still ends in a parser
+						default:
+							nUse++
+							okb, why = false, "the part behind the separator is used in a way that is not modelled"
+						}
+					}
+					if nUse == 0 {
+						okb, why = false, "the part behind the separator is never looked at: extra parts are ignored"
+					}
+				}
+				r.Check(okb, "C18.R3", key, p.Pos(c.Pos()), "the number of separator-delimited parts is bounded from above on every accepting path (extra parts are refused, not ignored)", why)
 				continue
 			}
 			if _, isSplit := isStringsSplit(c); !isSplit {
@@ -846,7 +906,70 @@ func checkIPFlagSwitch(p *Prog, r *Report, set []*ssa.Function) {
 		lowered := true
 		defaultFails := false
 		multi := ""
+		// table form: the name is looked up in a read-only package-level map name -> bit
+		var lk *ssa.Lookup
+		for _, b := range fn.Blocks {
+			for _, in := range b.Instrs {
+				if l, isL := in.(*ssa.Lookup); isL && l.CommaOk && globalOfLoad(l.X) != nil {
+					lk = l
+				}
+			}
+		}
+		if lk != nil {
+			g := globalOfLoad(lk.X)
+			table = globalMapConstTable(g)
+			if len(p.StoresToGlobalOutsideInit(g)) > 0 {
+				multi = "the flag table is written outside the package initialiser"
+			}
+			for _, s := range fp.Segs {
+				if !fp.Headers[s.Start] || !s.Has(lk) {
+					continue
+				}
+				if !derivedThrough(s, lk.Index, "strings.ToLower", 0) {
+					lowered = false
+				}
+				okV := extractOfValue(lk, 1)
+				k, v := false, false
+				if okV != nil {
+					k, v = s.BoolFact(okV)
+				}
+				switch {
+				case !k:
+					multi = "the lookup result is not tested"
+				case !v:
+					if s.End == nil && retClass(s) == retFail {
+						defaultFails = true
+					} else {
+						multi = "an unknown flag name is accepted"
+					}
+				default:
+					if s.End == nil {
+						multi = "a known name leaves the loop"
+						continue
+					}
+					var acc *ssa.Phi
+					for _, in := range s.End.Instrs {
+						if ph, ok := in.(*ssa.Phi); ok {
+							if bt, ok := ph.Type().Underlying().(*types.Basic); ok && bt.Kind() == types.Uint8 {
+								acc = ph
+							}
+						}
+					}
+					if acc == nil {
+						multi = "no accumulator"
+						continue
+					}
+					or, ok := s.PhiIn(acc).(*ssa.BinOp)
+					if !ok || or.Op != token.OR || or.X != ssa.Value(acc) || s.Resolve(or.Y) != ssa.Value(extractOfValue(lk, 0)) {
+						multi = "a known name does not OR exactly its table entry into the accumulated flags"
+					}
+				}
+			}
+		}
 		for _, s := range fp.Segs {
+			if lk != nil {
+				break
+			}
 			if !fp.Headers[s.Start] {
 				continue
 			}
@@ -1154,4 +1277,88 @@ func checkTCPFlagTable(p *Prog, r *Report, rule string) {
 		d, seen := fieldsOK[F]
 		r.Check(seen && d == "", rule, "tcp.Fill/"+F, p.Pos(fill.Pos()), "the TCP header flag "+F+" is the filler's "+F+" field on every successful path", d)
 	}
+}
+
+// globalMapConstTable: the constant entries a package initialiser puts into the map stored in g.
+func globalMapConstTable(g *ssa.Global) map[string]int64 {
+	out := map[string]int64{}
+	if g == nil || g.Pkg == nil {
+		return out
+	}
+	init := g.Pkg.Func("init")
+	if init == nil {
+		return out
+	}
+	var m ssa.Value
+	for _, b := range init.Blocks {
+		for _, in := range b.Instrs {
+			if st, ok := in.(*ssa.Store); ok && st.Addr == ssa.Value(g) {
+				m = st.Val
+			}
+		}
+	}
+	for _, b := range init.Blocks {
+		for _, in := range b.Instrs {
+			if mu, ok := in.(*ssa.MapUpdate); ok && mu.Map == m {
+				if k, isK := constString(mu.Key); isK {
+					if v, isV := constInt(mu.Value); isV {
+						out[k] = v
+					}
+				}
+			}
+		}
+	}
+	return out
+}
+
+// StoresToGlobalOutsideInit: writes to (or map updates through) g outside package initialisers.
+func (p *Prog) StoresToGlobalOutsideInit(g *ssa.Global) []ssa.Instruction {
+	var out []ssa.Instruction
+	for _, fn := range p.SrcFuncs() {
+		if fn.Name() == "init" {
+			continue
+		}
+		for _, b := range fn.Blocks {
+			for _, in := range b.Instrs {
+				switch t := in.(type) {
+				case *ssa.Store:
+					if t.Addr == ssa.Value(g) {
+						out = append(out, in)
+					}
+				case *ssa.MapUpdate:
+					if globalOfLoad(t.Map) == g {
+						out = append(out, in)
+					}
+				}
+			}
+		}
+	}
+	return out
+}
+
+// extractOfValue: the Extract #i of a tuple-valued instruction (comma-ok lookup, type assertion ...).
+func extractOfValue(v ssa.Value, i int) *ssa.Extract {
+	if v.Referrers() == nil {
+		return nil
+	}
+	for _, ref := range *v.Referrers() {
+		if ex, ok := ref.(*ssa.Extract); ok && ex.Index == i {
+			return ex
+		}
+	}
+	return nil
+}
+
+// usedValue: the value has a use other than debug references (a Cut whose second and third results are
+// dropped just takes the prefix before a marker - comment stripping - and is not a field split).
+func usedValue(v *ssa.Extract) bool {
+	if v == nil || v.Referrers() == nil {
+		return false
+	}
+	for _, ref := range *v.Referrers() {
+		if _, isDbg := ref.(*ssa.DebugRef); !isDbg {
+			return true
+		}
+	}
+	return false
 }
